@@ -26,6 +26,9 @@ Fixpoint zs_between (ts : list tok) (m : string) : list Z :=
   | _ :: r => zs_between r m
   end.
 
+Fixpoint pair_up {A : Type} (l : list A) : list (A * A) :=
+  match l with a :: b :: r => (a, b) :: pair_up r | _ => [] end.
+
 Definition step_op (op : list tok) : list tok :=
   match op with
   | TS name :: args =>
@@ -88,6 +91,22 @@ Definition step_op (op : list tok) : list tok :=
         let wire := h2_upload_as_h1 fs (negb (ended =? 0)%Z) (negb (ec =? 0)%Z) in
         let '(body, complete, bad) := dechunk (S (List.length wire)) wire in
         [TB wire; TB body; tn_bool complete; tn_bool bad]
+      | _ => [TS "badop"] end
+    else if name =? "h2toh1t" then
+      (* h2toh1t <chunked> <nfields> <name> <value>.. <frame payload>.. : the upload ended by a trailer
+         block; the HTTP/1.1 bytes, then what the strict decoder makes of them *)
+      match args with
+      | TN chunked :: TN nf :: rest =>
+        let bs := flat_map (fun t => match t with TB b => [b] | _ => [] end) rest in
+        let fields := pair_up (firstn (2 * Z.to_nat nf) bs) in
+        let fs := skipn (2 * Z.to_nat nf) bs in
+        if (chunked =? 0)%Z then
+          let wire := h2_upload_trailers_as_h1 fs false false fields in
+          [TB wire; TB wire; TN 1; TN 0]
+        else
+          let wire := h2_upload_trailers_as_h1 fs true false fields in
+          let '(body, complete, bad) := dechunk (S (List.length wire)) wire in
+          [TB wire; TB body; tn_bool complete; tn_bool bad]
       | _ => [TS "badop"] end
     else if name =? "tlsnew" then []
     else if name =? "tlswrite" then
